@@ -181,7 +181,6 @@ func runC14(c *Ctx) {
 	for i := 0; i < nsets; i++ {
 		ac := jwt.NewAccountClaims(kr.by["account"].pub)
 		g.fillValue(reflect.ValueOf(&ac.SigningKeys).Elem())
-		vterm := em.Val(ty, elem(ac))
 		tok, err := ac.Encode(kr.by["operator"].kp)
 		c.sum.Evaluations++
 		c.sum.ImplChecks++
@@ -190,6 +189,10 @@ func runC14(c *Ctx) {
 			continue
 		}
 		inp := map[string]interface{}{"token": tok, "keys": len(ac.SigningKeys)}
+		postTerm := ""
+		if i < 40 {
+			postTerm = em.Val(ty, elem(ac)) // the object as Encode left it (stamped), before any adjustment below
+		}
 		d, err := jwt.DecodeAccountClaims(tok)
 		if err != nil {
 			inp["error"] = err.Error()
@@ -212,9 +215,7 @@ func runC14(c *Ctx) {
 		c.count("keyset_roundtrip")
 		if i < 40 {
 			raw, _ := b64.DecodeString(strings.Split(tok, ".")[1])
-			// the value dumped before Encode lacks the stamps: dump the stamped object instead
-			_ = vterm
-			wk.add(fmt.Sprintf("(KAccount, %s, %s, %s)", em.Val(ty, elem(ac2(ac, tok))), schema.JSONTerm(raw), em.Val(ty, elem(d))), inp)
+			wk.add(fmt.Sprintf("(KAccount, %s, %s, %s)", postTerm, schema.JSONTerm(raw), em.Val(ty, elem(d))), inp)
 		}
 	}
 	// 2. ValidateScopedSigner
@@ -394,6 +395,3 @@ func floorDiv(a, b int64) int64 {
 	}
 	return q
 }
-
-// ac2 returns the object as it is after Encode (Encode stamps the object in place).
-func ac2(ac *jwt.AccountClaims, _ string) *jwt.AccountClaims { return ac }
